@@ -70,6 +70,8 @@ type knownFinding struct {
 
 // Ctx is the run context handed to a check.
 type Ctx struct {
+	// FullScope: the check is cheap enough to run its thorough scope in the quick tier too (set by the check).
+	FullScope bool
 	ID       string
 	Tier     string
 	Seed     int64
@@ -110,7 +112,7 @@ func NewCtx(id, tier string, seed int64, level string) *Ctx {
 }
 
 // Quick reports whether this is the quick tier.
-func (c *Ctx) Quick() bool { return c.Tier != "thorough" }
+func (c *Ctx) Quick() bool { return c.Tier != "thorough" && !c.FullScope }
 
 // Pick returns q in the quick tier and t in the thorough tier.
 func Pick[T any](c *Ctx, q, t T) T {
